@@ -360,6 +360,7 @@ class ClassDecl:
     post_init: bool = False
     post_copy: bool = False
     delegating_init: bool = False  # hand-written __init__(self, **kwargs) that forwards to the parent class's constructor
+    post_copy_writes: bool = False  # __post_copy__ assigns an (unmanaged) attribute on the copy it finalises
 
 
 @dataclasses.dataclass
@@ -632,7 +633,7 @@ def render_class(m: ModuleDecl, c: ClassDecl):
     if c.post_init:
         body.append(f"\n    def __post_init__(self):\n        PROBE.enter('post_init:{c.name}', self)")
     if c.post_copy:
-        body.append(f"\n    def __post_copy__(self):\n        PROBE.enter('post_copy:{c.name}', self)")
+        body.append(f"\n    def __post_copy__(self):\n        PROBE.enter('post_copy:{c.name}', self)" + ("\n        self.copy_generation = getattr(self, 'copy_generation', 0) + 1" if c.post_copy_writes else ""))
     if c.delegating_init:
         body.append(f"\n    def __init__(self, **kwargs):\n        PROBE.enter('init:{c.name}', self)\n        {c.base}.__init__(self, **kwargs)")
     if not body:
@@ -689,6 +690,7 @@ def make_transforms(probe):
         "leaf_bump": _bump,
         "kleaf_bump": _bump,
         "ident_copy": lambda v: copy.deepcopy(v),
+        "shallow": lambda v: copy.copy(v),  # a new container / instance that holds the old elements / nested values
         "same": lambda v: v,
         "boom": boom,
         "to_obj": lambda v: object(),
@@ -746,7 +748,7 @@ def model_transform(name, v):
         return frozenset(v) | {"z"}
     if name == "dictadd":
         return {**v, "n": 1}
-    if name in ("dictcopy", "listcopy", "ident_copy", "same"):
+    if name in ("dictcopy", "listcopy", "ident_copy", "same", "shallow"):
         return copy.deepcopy(v)
     if name in ("leaf_bump", "kleaf_bump"):
         kind, cname, d = v
